@@ -41,16 +41,16 @@ fn sim_modes(sc: &Scenario, plan: &Plan) -> Vec<Mode> {
         let h = hash_of(sc) ^ plan.seed.wrapping_mul(0x9e37_79b9_7f4a_7c15);
         let mut v = vec![Mode::File];
         if sc.lines.len() <= plan.full_len {
-            for c in CHUNKS {
-                v.push(Mode::Pipe { chunk: c, schedule: Schedule::Fifo });
+            for (i, c) in CHUNKS.iter().enumerate() {
+                v.push(Mode::Pipe { chunk: *c, schedule: Schedule::Fifo, nonblock: (i as u64 + h) % 2 == 0 });
             }
         } else {
-            v.push(Mode::Pipe { chunk: CHUNKS[(h % 5) as usize], schedule: Schedule::Fifo });
-            v.push(Mode::Pipe { chunk: CHUNKS[((h / 5) % 5) as usize], schedule: Schedule::Random(h) });
+            v.push(Mode::Pipe { chunk: CHUNKS[(h % 5) as usize], schedule: Schedule::Fifo, nonblock: true });
+            v.push(Mode::Pipe { chunk: CHUNKS[((h / 5) % 5) as usize], schedule: Schedule::Random(h), nonblock: false });
         }
         for k in 0..plan.rnd_sched {
             let c = CHUNKS[((h >> (8 + 3 * k)) % 4) as usize]; // not `whole`: there the schedule hardly matters
-            v.push(Mode::Pipe { chunk: c, schedule: Schedule::Random(h.wrapping_add(k as u64)) });
+            v.push(Mode::Pipe { chunk: c, schedule: Schedule::Random(h.wrapping_add(k as u64)), nonblock: (h >> 40) % 2 == k as u64 % 2 });
         }
         v
     } else {
@@ -63,6 +63,10 @@ struct Group {
     obs: Obs,
     echo_fd: bool,
     modes: Vec<String>,
+    /// over the pipe-fed runs of the group: largest O_NONBLOCK flag seen (-1: no such run)
+    nbmax: i32,
+    /// some pipe-fed run of the group started with O_NONBLOCK set
+    nb0: bool,
 }
 
 /// What of an observation goes into a record (the text of diagnostics does not).
@@ -75,12 +79,15 @@ fn same(sc: &Scenario, a: &Obs, b: &Obs) -> bool {
         && (!sc.has("VB") || a.stderr.split_inclusive('\n').take(64).eq(b.stderr.split_inclusive('\n').take(64)))
 }
 
-fn add(groups: &mut Vec<Group>, sc: &Scenario, obs: Obs, echo_fd: bool, name: String) {
+fn add(groups: &mut Vec<Group>, sc: &Scenario, obs: Obs, echo_fd: bool, name: String, nb0: bool) {
     let e = echo_fd && sc.has("VB");
     if let Some(g) = groups.iter_mut().find(|g| same(sc, &g.obs, &obs) && g.echo_fd == e) {
         g.modes.push(name);
+        g.nbmax = g.nbmax.max(obs.nbmax);
+        g.nb0 |= nb0;
     } else {
-        groups.push(Group { obs, echo_fd: e, modes: vec![name] });
+        let nbmax = obs.nbmax;
+        groups.push(Group { obs, echo_fd: e, modes: vec![name], nbmax, nb0 });
     }
 }
 
@@ -97,7 +104,7 @@ fn record(sc: &Scenario, g: &Group, origin: &str) -> Value {
         "origin": origin, "modes": g.modes,
         "outcome": g.obs.outcome, "trace": trace, "status": g.obs.status,
         "errnz": !g.obs.stderr.is_empty(), "echofd": g.echo_fd, "elines": elines,
-        "nout": g.obs.stdout.len(),
+        "nout": g.obs.stdout.len(), "nbmax": g.nbmax, "nb0": g.nb0,
     })
 }
 
@@ -106,7 +113,8 @@ fn run_scenario(sc: &Scenario, plan: &Plan, dfs: bool, real_modes: &[real::RMode
     for m in sim_modes(sc, plan) {
         let (obs, _) = sim::run(sc, &m);
         stats.sim_runs += 1;
-        add(&mut groups, sc, obs, m.echo_fd(), m.name());
+        let nb0 = matches!(m, Mode::Pipe { nonblock: true, .. });
+        add(&mut groups, sc, obs, m.echo_fd(), m.name(), nb0);
     }
     if dfs && sc.feed == "fd" {
         // every schedule of feeder vs. shell within the first dfs_depth choice points
@@ -115,12 +123,13 @@ fn run_scenario(sc: &Scenario, plan: &Plan, dfs: bool, real_modes: &[real::RMode
         let mut prefix: Vec<usize> = vec![];
         let mut n = 0;
         loop {
-            let m = Mode::Pipe { chunk, schedule: Schedule::Prefix(prefix.clone()) };
+            let nonblock = (h >> 33) % 2 == 0;
+            let m = Mode::Pipe { chunk, schedule: Schedule::Prefix(prefix.clone()), nonblock };
             let (obs, choices) = sim::run(sc, &m);
             stats.sim_runs += 1;
             stats.dfs_schedules += 1;
             n += 1;
-            add(&mut groups, sc, obs, true, format!("sim:pipe{chunk}:dfs"));
+            add(&mut groups, sc, obs, true, format!("sim:pipe{chunk}{}:dfs", if nonblock { "nb" } else { "" }), nonblock);
             match next_prefix(&choices, plan.dfs_depth) {
                 Some(p) if n < 4096 => prefix = p,
                 _ => break,
@@ -134,7 +143,8 @@ fn run_scenario(sc: &Scenario, plan: &Plan, dfs: bool, real_modes: &[real::RMode
     for rm in real_modes {
         let obs = real::run(sc, rm);
         stats.real_runs += 1;
-        add(&mut groups, sc, obs, rm.echo_fd(), rm.name());
+        let nb0 = matches!(rm, real::RMode::Pipe(_, true));
+        add(&mut groups, sc, obs, rm.echo_fd(), rm.name(), nb0);
     }
     groups
 }
@@ -151,7 +161,11 @@ struct Stats {
 
 fn real_modes_for(sc: &Scenario, h: u64) -> Vec<real::RMode> {
     if sc.feed == "fd" {
-        vec![real::RMode::File, real::RMode::Pipe(CHUNKS[(h % 5) as usize]), real::RMode::Pipe(CHUNKS[((h / 5) % 5) as usize])]
+        vec![
+            real::RMode::File,
+            real::RMode::Pipe(CHUNKS[(h % 5) as usize], true),
+            real::RMode::Pipe(CHUNKS[((h / 5) % 5) as usize], (h >> 20) % 2 == 0),
+        ]
     } else {
         vec![real::RMode::CmdString, real::RMode::Dot]
     }
